@@ -93,7 +93,9 @@ C02CT = [("Mc.Props.C02Closed", "Mc.C02." + t) for t in ["C02_manage_accepted_up
                                                       "C02_recreated_never_deleted", "C02_created_born_with_references", "exec_log"]] + \
         [("Mc.Props.C02Sem", "Mc.Api." + t) for t in ["inv_reachable", "inv_exec", "rv_identifies", "uid_identifies"]]
 ATOMT = [("Mc.Props.AtomicSem", "Mc.Atomic.atomicLoop_accepted")]
-TB_API = ["Lean model of the API server (Mc/Api.lean: optimistic concurrency by resourceVersion, UID preconditions, finalizer-aware delete, status subresource, one-controller "
+TB_API = ["closed-loop correspondence: the Lean sync model run against the Lean API model from the recorded start store, with the recorded webhook answers, must leave the "
+          "store the real sync left in the simulator (up to UIDs, resourceVersions, timestamps and map-iteration order); compared on every sync without injected faults, outside writers or server-side apply",
+          "Lean model of the API server (Mc/Api.lean: optimistic concurrency by resourceVersion, UID preconditions, finalizer-aware delete, status subresource, one-controller "
           "validation, generation bump, simplified server-side apply), checked against the Go simulator on every request the simulator answered (pre-state, body, options -> "
           "code, post-state, response; resourceVersions and UIDs of writes must be new); other API clients are arbitrary request sequences through the same model"]
 
@@ -110,10 +112,10 @@ PROPS = {
         "assumptions": ["Retry-After dates are compared on whole seconds; byte-level decoding is library code compared through four representative bodies"],
     },
     "C01": sync_prop(C01T, ["rounds-converge", "judged-converge"],
-                     "non-trivial = a convergence scenario judged by the cross-round oracle (no foreign object on a desired name)" + RULE_ROUNDS, ["children", "claim", "status", "outcome"],
+                     "non-trivial = a convergence scenario judged by the cross-round oracle (no foreign object on a desired name)" + RULE_ROUNDS, ["children", "claim", "status", "outcome", "apimodel", "closedloop"],
                      extra_streams=[rounds("converge", 240, 2400, ["judged-converge"])]),
     "C02": sync_prop(C02T + C02CT + C04T[:1] + C04T[3:6] + C06T[-1:], ["create-child", "update-child", "delete-child", "apply-child", "create-revision", "update-revision", "delete-revision"],
-                     "non-trivial = some child or ControllerRevision write was accepted" + RULE_INTERLEAVE, ["claim", "children", "revisions", "apimodel"],
+                     "non-trivial = some child or ControllerRevision write was accepted" + RULE_INTERLEAVE, ["claim", "children", "revisions", "apimodel", "closedloop"],
                      extra_streams=[rounds("interleave", 600, 6000, ["create-child", "update-child", "delete-child", "failed-update", "failed-delete"])]),
     "C04": sync_prop(C04T + ATOMT + [("Mc.Props.AtomicSem", "Mc.Atomic.C04_release_on_live"), ("Mc.Props.AtomicSem", "Mc.Atomic.C04_adopt_on_live")],
                      ["update-child", "update-revision", "failed-update"],
@@ -241,5 +243,5 @@ PROPS = {
     },
 }
 
-for _p in ("C02", "C04", "C10", "C11"):
+for _p in ("C01", "C02", "C04", "C10", "C11"):
     PROPS[_p]["trusted_base"] = PROPS[_p]["trusted_base"] + TB_API
